@@ -90,4 +90,19 @@ quaternionf q_from_matrix(const vec3f &vx, const vec3f &vy, const vec3f &vz) { r
 quaternionf q_from_ypr(float yaw, float pitch, float roll) { return quaternionf(yaw, pitch, roll); }
 quaternionf q_slerp(float f, const quaternionf &a, const quaternionf &b) { return slerp(f, a, b); }
 bool q_eq(const quaternionf &a, const quaternionf &b) { return a == b; }
+// ---- compound assignments (the object assigned to is passed by value and returned)
+linear2f l2_imul(linear2f a, const linear2f &b) { a *= b; return a; }
+linear2f l2_idiv(linear2f a, const linear2f &b) { a /= b; return a; }
+linear3f l3_imul(linear3f a, const linear3f &b) { a *= b; return a; }
+linear3f l3_idiv(linear3f a, const linear3f &b) { a /= b; return a; }
+affine3f a3_imul(affine3f a, const affine3f &b) { a *= b; return a; }
+affine3f a3_idiv(affine3f a, const affine3f &b) { a /= b; return a; }
+quaternionf q_imul(quaternionf a, const quaternionf &b) { a *= b; return a; }
+quaternionf q_idiv(quaternionf a, const quaternionf &b) { a /= b; return a; }
+quaternionf q_iadd(quaternionf a, const quaternionf &b) { a += b; return a; }
+quaternionf q_isub(quaternionf a, const quaternionf &b) { a -= b; return a; }
+quaternionf q_imuls(quaternionf a, float b) { a *= b; return a; }
+quaternionf q_idivs(quaternionf a, float b) { a /= b; return a; }
+quaternionf q_iadds(quaternionf a, float b) { a += b; return a; }
+quaternionf q_isubs(quaternionf a, float b) { a -= b; return a; }
 }}}
